@@ -23,6 +23,7 @@ RULE = (
     ' Round 7: application sends (presentation request, reboot, req, set) among the events and before the first rejected message.'
     ' Round 8: `flag` ops.'
     ' Round 9: all 256 node ids enumerated.'
+    ' Round 10: every internal type with payload 0/1 arrives before the first rejected message.'
 )
 ASSUMPTIONS = [
     "a failed request write surfaces as a transport error from that listen step (any library error is accepted)",
